@@ -350,10 +350,11 @@ static void part_c(void) {
   int order = 1 + vx_choose("blocks-1", 4), rows = vx_choose("rows", 2) ? 7 : 3;
   int opt = vx_choose("option+1", 7) - 1;
   int fam = vx_choose("family", NFAM), pat = vx_choose("missing", 2) ? 2 : 0, k = vx_choose("values", vx_thorough() ? 4 : 2);
+  int lay = vx_choose("widths", 3);   /* 0: all block widths different from the neighbour's, 1: all equal, 2: equal in pairs (a,a,b,b) */
   tensor *tt, *tr; NewTensor(&tt, (size_t)order); NewTensor(&tr, (size_t)order);
   matrix *mb[4], *mt[4]; dvector *ma[4], *ms[4]; int cc[4];
   for (int b = 0; b < order; b++) {
-    int cols = cc[b] = 1 + (b * 2 + fam) % 5;
+    int cols = cc[b] = lay == 0 ? 1 + (b * 2 + fam) % 5 : lay == 1 ? 1 + fam % 5 : 1 + ((b / 2) * 2 + fam) % 5;
     for (int j = 0; j < cols; j++) { int np = 0; for (int i = 0; i < rows; i++) { MASK[i][j] = (unsigned char)miss_at(pat, i + b, j); np += !MASK[i][j]; } if (np < 2) for (int i = 0; i < rows; i++) MASK[i][j] = 0; }
     for (int j = 0; j < cols; j++) gen_col((fam + j + 3 * b) % NFAM, 900 + k * 13 + b, j, rows);
     mb[b] = mk_matrix(rows, cols);
@@ -387,7 +388,7 @@ static void body(void) {
 
 int main(int argc, char **argv) {
   vg_seed(getenv("VERIF_SEED") ? atol(getenv("VERIF_SEED")) : 0);
-  vx_describe("alphabet", "A: rows {2,3,4,7,60} [thorough +5,12,33] x cols {1,2,5,20} [+3,8] x option -1..5 x %d column families (generic, 4 constants incl. 0 and 5e-3, spread 0.02, offsets 1e3/-7.5, spread 50/1e3, means 9e-4/5e-3/1.5e-2/-0.8, first-row max/min, last-row max, column sum 3e-7, centred) x {all columns one family, rotating families} x missing pattern {none, 9%%, 20%% incl. row 0} x 2 [12] value sets; B: ALL subsets of missing cells of 3x2 and 4x2 [+5x2, 3x3] (>=2 present per column) x option x 6 family tuples x 2 [6] value sets; C: tensors of 1..4 blocks x rows {3,7} x option x family x missing x value set", NFAM);
+  vx_describe("alphabet", "A: rows {2,3,4,7,60} [thorough +5,12,33] x cols {1,2,5,20} [+3,8] x option -1..5 x %d column families (generic, 4 constants incl. 0 and 5e-3, spread 0.02, offsets 1e3/-7.5, spread 50/1e3, means 9e-4/5e-3/1.5e-2/-0.8, first-row max/min, last-row max, column sum 3e-7, centred) x {all columns one family, rotating families} x missing pattern {none, 9%%, 20%% incl. row 0} x 2 [12] value sets; B: ALL subsets of missing cells of 3x2 and 4x2 [+5x2, 3x3] (>=2 present per column) x option x 6 family tuples x 2 [6] value sets; C: tensors of 1..4 blocks x block-width layout {neighbours differ, all equal, equal in pairs} x rows {3,7} x option x family x missing x value set", NFAM);
   vx_describe("oracle", "long-double statistics over present cells: stored average = mean, stored scaling = documented statistic (1, sd, rms of raw column, sqrt(sd), max-min, mean), cells = (x-mean)/scale, column mean 0, promised sd/range of the transformed column, zero-spread columns exactly 0 and finite, compacted column gives the same fit, apply path on the same matrix = fit, on new rows = affine map from the stored vectors, TensorPreprocess block = MatrixPreprocess of the block (bit-identical)");
   vx_describe("tolerances", "avg 8 eps (n+2) max|x|; sd 4 d_avg + 8 eps (n+2) sd; cell 4 (d_avg/s + |t| d_s/s + 4 eps |t|); apply-new 8 eps ((|z|+|avg|)/|s| + |t|)");
   vx_describe("classes", "abs(colsum)<1e-6 (MatrixColAverage flush); opt=4,row0-missing (MatrixColumnMinMax seed); opt=5,abs(mean)<1e-3 (fit guard zeroes a column with spread); abs(scale) in [1e-3,1e-2) (fit guard 1e-3 vs apply guard 1e-2)");
